@@ -143,6 +143,11 @@ class CW(sym.Walker):
                             fm = (d_[0], d_[1] - k_)
                             if fm[0] and fm not in out:
                                 out.append(fm)
+        # counters that never go negative (a remaining-room variable counted down under its own test)
+        for v in sorted(_modified(self.f, self.loops[head])):
+            fm = ({v: 1}, 0)
+            if fm not in out:
+                out.append(fm)
         return out
 
     def probe(self, head):
